@@ -38,6 +38,7 @@ package main
 //   E                    end of script (scratch directory removed)
 
 import (
+	"bytes"
 	"bufio"
 	"encoding/hex"
 	"fmt"
@@ -601,6 +602,11 @@ func main() {
 				ctl.record = nil
 				ctl.mu.Unlock()
 				fmt.Fprintf(out, "R %s\n", replyText(res, herr, pan))
+			case "LT":
+				// leftover of an earlier crashed rewrite: a temporary preamble file longer than anything the next rewrite writes
+				n, _ := strconv.Atoi(f[1])
+				os.MkdirAll(filepath.Dir(sc.prePath()), 0o755)
+				os.WriteFile(sc.prePath()+".tmp", bytes.Repeat([]byte("x"), n), 0o644)
 			case "WW":
 				c1, _ := strconv.Atoi(f[2])
 				n1, _ := strconv.Atoi(f[3])
